@@ -47,6 +47,7 @@ class RSocketClient(RSocketBase):
         self._transport: Optional[Transport] = None
         self._next_transport = asyncio.Future()
         self._close_requested = False
+        self._connect_attempt_failed = False
         self._keepalive_timeout_handler_running = False
         self._reconnect_task = asyncio.create_task(self._reconnect_listener())
         self._keepalive_task = None
@@ -72,6 +73,7 @@ class RSocketClient(RSocketBase):
         logger().debug('%s: connecting', self._log_identifier())
         self._is_closing = False
         self._is_server_alive = True
+        self._connect_attempt_failed = False
         self._update_last_keepalive()
         self._reset_internals()
         self._start_tasks()
@@ -83,6 +85,7 @@ class RSocketClient(RSocketBase):
             return
         except Exception as exception:
             logger().error('%s: Connection error', self._log_identifier(), exc_info=True)
+            self._connect_attempt_failed = True
             await self._on_connection_error(exception)
             return
 
@@ -164,7 +167,10 @@ class RSocketClient(RSocketBase):
                     self._next_transport = create_future()
                     await self.connect()
                 finally:
-                    self._connect_request_event.clear()
+                    if not self._connect_attempt_failed:
+                        self._connect_request_event.clear()
+                    # else: there is no connection. A reconnect asked for meanwhile (e.g. by the
+                    # application's on_connection_error, to try again) is served by the next iteration
         except CancelledError:
             logger().debug('%s: Asyncio task canceled: reconnect_listener', self._log_identifier())
         except Exception:
